@@ -952,7 +952,18 @@ func (x *Exec) enterBlock(b *ssa.BasicBlock, within map[*ssa.BasicBlock]bool) bo
 		x.vals[phi] = tv(x.smt.fresh("phi."+name+x.nameSuffix, so))
 		x.typeFacts(x.vals[phi].T, phi.Type())
 	}
-	// 3. assume invariants
+	// 3. assume loop-level definitional axioms, then the invariants
+	if x.c != nil {
+		for _, ax := range x.c.LoopAxioms[ord] {
+			t, err := x.evalSpec(ax.E, x.specEnvAt(b, nil))
+			if err != nil {
+				x.specError(ax, err)
+				continue
+			}
+			x.smt.assume(implies(x.reach, t))
+			x.V.noteAssumed("definitional axiom " + x.c.Name + ":" + ax.Name + " — " + ax.Src)
+		}
+	}
 	for _, inv := range invs {
 		t, err := x.evalSpec(inv.E, x.specEnvAt(b, nil))
 		if err != nil {
